@@ -1,4 +1,5 @@
 """REC-DEPTH-GUARD (C07) and REC-IMMEDIATE (C06)."""
+import re
 from .facts import AnalysisError
 from .report import RuleResult
 from .sym import norm, show, strip, subterms
@@ -309,6 +310,42 @@ def rule_immediate(ctx):
                       % ", ".join(sorted(set(imprecise))), loc)
     if not mp:
         raise AnalysisError("REC-IMMEDIATE: no cascade merge found")
+    # (2c) every popped edge is visited by the loop: an edge the loop leaves behind is dropped by the container, i.e.
+    # released through Rc::drop -> decrement_strong -> a *deferred* try_destruct, one grace period per level
+    EARLY = ("TakeWhile", "Take<", "SkipWhile", "Skip<", "StepBy", "MapWhile", "Scan<", "Peekable")
+    nloops = 0
+    seen_it = set()
+    for p in ctx.paths(DGN):
+        nx = [(i, e) for i, e in enumerate(p.events) if e.kind == "call" and (e.ntarget or "").endswith("Iterator>::next")
+              and not e.frame]
+        for (i, e) in nx:
+            full = (e.callee.full or "") if e.callee is not None else (e.target or "")
+            if "strong::Rc<" not in full and "Rc<T>" not in full:
+                continue
+            nloops += 1
+            if full not in seen_it:
+                seen_it.add(full)
+                bad_ad = [a for a in EARLY if ("std::iter::" + a) in full or ("iter::adapters::" in full and a in full)]
+                ok = not bad_ad
+                r.instance("edge loop iterates `%s`" % re.sub(r"<strong::Rc<T>.*?>", "<Rc>", full)[:70], ok)
+                if not ok:
+                    r.violate(DGN, "edges-skipped:" + bad_ad[0].strip("<"), "the loop over the popped edges goes through `%s`, "
+                              "which can stop before the last edge: the edges left behind are released by the container's "
+                              "drop, i.e. through a deferred try_destruct - a grace period per level instead of one pass"
+                              % bad_ad[0].strip("<"), e.loc())
+        # leaving the loop other than by exhaustion
+        if p.exit[0] == "return" and nx:
+            li, le = nx[-1]
+            full = (le.callee.full or "") if le.callee is not None else ""
+            if "Rc<" in full:
+                d = [q for q in p.events[li:] if q.kind == "cond" and q.term == ("disc", le.result)]
+                if d and d[0].value == 1:
+                    r.instance("edge loop left only when the edges are exhausted", False)
+                    r.violate(DGN, "edges-break", "a path leaves the loop over the popped edges while an edge was just taken "
+                              "(break / return inside the loop): the remaining edges are released by the container's drop, "
+                              "i.e. deferred one by one", le.loc())
+    if nloops < 1 and not r.violations:
+        raise AnalysisError("REC-IMMEDIATE: the loop over the popped edges was not found")
     # (3) periodic repin
     ok = any(c.target == "ebr_impl::internal::Local::repin_without_collect" for (_, _, c) in b.calls())
     r.instance("periodic repin_without_collect present", ok)
